@@ -15,6 +15,7 @@ THEOREMS = [
     'C20.euler_one_step_error', 'C20.rk4_one_step_error_scalar',
     'C20.cd_cubic', 'C20.cd_exact_quadratic', 'C20.cd_error_second_order',
     'C20.rate_zero_iff', 'C20.climb_fixed_point', 'C20.climb_reverses_tangential',
+    'C20.phaseSteps_le', 'C20.climb_runs_when_requested', 'C20.phaseSteps_stops_at_first_small',
 ]
 PARTIAL = {
     'relaxation_converges_to_saddle': 'convergence of the iterated float/spline relaxation is not a '
@@ -188,8 +189,18 @@ def correspond(ctx):
             lines.append(line)
             checks.append(('cd', line, [impl[i]], {'a': a, 'b': b, 'c': c, 'm': m, 'x': x, 'shift': s, 'i': i}))
             ctx.stats.case('cd', line, sample={'op': 'central_difference', 'x': x, 'shift': s, 'i': i})
-    # climbing rate through the real ISMPath.step is exercised in search(); here the formula itself
+    # climbing rate formula
+    for it in range(ctx.n(100, 1000)):
+        dim = 1 + it % 4
+        g = [cm.dyadic(rng, -2, 2, 2) for _ in range(dim)]
+        tau = [cm.dyadic(rng, -1, 1, 2) for _ in range(dim)]
+        G, Tn = np.array([g]), np.array([tau])
+        impl = (-G + 2 * np.einsum('ij,ij,il->il', G, Tn, Tn))[0]
+        line = f'climb {dim} ' + cm.frs(g) + ' ' + cm.frs(tau)
+        lines.append(line)
+        checks.append(('climb-formula', line, list(impl), {'g': g, 'tau': tau}))
     outs = ctx.driver.ask_many(lines)
+    _relax_flow(ctx, rng)
     for (name, line, impl, info), out in zip(checks, outs):
         if out.startswith('err:'):
             ctx.disagree(f'{name}:driver-error', f'model refused {name}: {out}', {'line': line, 'impl': impl})
@@ -199,6 +210,51 @@ def correspond(ctx):
             ctx.disagree(name, f'{name}: implementation {impl} != model {[float(v) for v in model]}',
                          {'op': name, 'input': info, 'impl': [float(v) for v in impl],
                           'model': [str(v) for v in model]})
+
+
+def _relax_flow(ctx, rng):
+    """control flow of ISMPath.relax against the Lean `phaseSteps` model: `step` is replaced by a scripted
+    displacement sequence, so the number of relaxation / climbing steps performed is observable."""
+    np = _np()
+    from atomman.mep import ISMPath
+
+    class Scripted(ISMPath):
+        script = None   # shared mutable: {'relax': [...], 'climb': [...], 'nr': 0, 'nc': 0}
+
+        def step(self, timestep=None, climbindex=None):
+            sc = Scripted.script
+            if climbindex is None:
+                d = sc['relax'][sc['nr']]
+                sc['nr'] += 1
+            else:
+                d = sc['climb'][sc['nc']]
+                sc['nc'] += 1
+            new = self.coord.copy()
+            new[1, 0] += d * timestep
+            return Scripted(new, self.energyfxn, gradientfxn=self.gradientfxn, gradientkwargs={})
+
+    def energy(p):
+        return -(p[..., 0] - 0.3) ** 2 - p[..., 1] ** 2
+    for it in range(ctx.n(150, 1500)):
+        rs, cs = rng.randint(0, 6), rng.randint(0, 6)
+        tol = rng.choice([0.5, 0.25, 1.0])
+        mk = lambda n: [rng.choice([2.0, 1.0, 0.75, 0.125, 0.0625, 0.5, 0.25]) for _ in range(n)]
+        dr, dc = mk(rs), mk(cs)
+        Scripted.script = {'relax': dr, 'climb': dc, 'nr': 0, 'nc': 0}
+        coord = np.array([[-1.0, 0.0], [0.25, 0.5], [1.0, 0.0]])
+        path = Scripted(coord, energy, gradientfxn=(lambda f, c: np.zeros_like(c)), gradientkwargs={})
+        path.relax(relaxsteps=rs, climbsteps=cs, timestep=0.5, tolerance=tol, verbose=False)
+        got = (Scripted.script['nr'], Scripted.script['nc'])
+        m1 = ctx.driver.ask(f'phase {rs} {cm.fr(tol)} ' + cm.frs(dr))
+        m2 = ctx.driver.ask(f'phase {cs} {cm.fr(tol)} ' + cm.frs(dc))
+        ctx.stats.case('relax-flow', (rs, cs, tol, tuple(dr), tuple(dc)), nontrivial=rs + cs > 0,
+                       sample={'op': 'relax-flow', 'relaxsteps': rs, 'climbsteps': cs, 'tolerance': tol,
+                               'd_relax': dr, 'd_climb': dc, 'steps_done': got})
+        if (str(got[0]), str(got[1])) != (m1, m2):
+            ctx.disagree('relax-flow', f'relax(relaxsteps={rs}, climbsteps={cs}, tol={tol}) with step displacements '
+                         f'{dr} / {dc} performed {got} steps, model ({m1}, {m2})',
+                         {'op': 'relax-flow', 'relaxsteps': rs, 'climbsteps': cs, 'tol': tol, 'dr': dr, 'dc': dc,
+                          'impl': got, 'model': [m1, m2]})
 
 
 # ----------------------------------------------------------------------------------------
@@ -251,7 +307,7 @@ def search(ctx, broken):
     # numerical gradient: second order in the step on smooth functions (sin/exp mix)
     for it in range(ctx.n(40, 400)):
         dim = 1 + it % 3
-        x = np.array([rng.uniform(-1, 1) for _ in range(dim)])
+        x = np.array([rng.uniform(-1, 1) * rng.choice([1.0, 3.0, 8.0]) for _ in range(dim)])
         w = np.array([rng.uniform(0.5, 2) for _ in range(dim)])
 
         def fxn(v, w=w):
@@ -260,7 +316,7 @@ def search(ctx, broken):
         e1 = np.abs(central_difference(fxn, x, 1e-2) - exact).max()
         e2 = np.abs(central_difference(fxn, x, 5e-3) - exact).max()
         ctx.stats.case('oracle:cd-order', tuple(x))
-        if e1 > 1e-3 or (e2 > 1e-12 and e1 / e2 < 3.0):
+        if e1 > 1e-2 or (e2 > 1e-10 and e1 / e2 < 3.0):
             ctx.violate('central_difference:order', f'gradient error {e1} at shift 1e-2, {e2} at 5e-3 (ratio {e1 / max(e2, 1e-300):.2f}, expected ~4)',
                         {'op': 'cd-order', 'x': x.tolist(), 'w': w.tolist(), 'e1': float(e1), 'e2': float(e2)})
         # shape handling: (n, dim) input gives row-wise gradients
@@ -274,59 +330,67 @@ def search(ctx, broken):
 
 
 def _search_relax(ctx, rng):
-    """partial clause: string relaxation on E = (x^2-1)^2 + k (y - c x^2 + c)^2 family:
-    minima (+-1, 0), saddle (0, -c)?  use the simpler known family below."""
+    """partial clause (explored on the implementation): string relaxation on the family
+         E(x,y) = (x^2-1)^2 + a (x^3/3 - x) + k (y - c (x^2-1))^2 ,  |a| < 4
+       minima (-1,0), (+1,0); saddle (-a/4, c (a^2/16 - 1)) on the valley floor."""
     np = _np()
     import atomman.mep as mep
-    n_cases = ctx.n(3, 12)
+    n_cases = ctx.n(4, 16)
     for it in range(n_cases):
-        k = rng.choice([1.0, 2.0, 4.0])
-        c = rng.choice([0.0, 0.3, 0.6])
-        # E(x,y) = (x^2-1)^2 + k (y - c (1 - x^2))^2 : minima (+-1, 0) E=0; saddle (0, c) E=1
-        def energy(p, k=k, c=c):
-            x, y = p[..., 0], p[..., 1]
-            return (x * x - 1) ** 2 + k * (y - c * (1 - x * x)) ** 2
+        k = rng.choice([1.5, 2.0, 3.0])
+        c = rng.choice([0.0, 0.5, -0.4, 0.7])
+        a = rng.choice([0.0, 0.6, -0.5, 0.3]) if it else 0.6
+        xs = -a / 4
+        saddle = np.array([xs, c * (xs * xs - 1)])
 
-        def grad(p, k=k, c=c):
+        def energy(p, k=k, c=c, a=a):
+            p = np.asarray(p)
             x, y = p[..., 0], p[..., 1]
-            u = y - c * (1 - x * x)
-            gx = 4 * x * (x * x - 1) + 2 * k * u * (2 * c * x)
+            return (x * x - 1) ** 2 + a * (x ** 3 / 3 - x) + k * (y - c * (x * x - 1)) ** 2
+
+        def grad(p, k=k, c=c, a=a):
+            x, y = p[..., 0], p[..., 1]
+            u = y - c * (x * x - 1)
+            gx = 4 * x * (x * x - 1) + a * (x * x - 1) + 2 * k * u * (-2 * c * x)
             gy = 2 * k * u
             return np.stack([gx, gy], axis=-1)
-        nimg = rng.choice([11, 15, 21])
-        bend = rng.choice([0.0, -0.3])
+        barrier = float(energy(saddle))
+        nimg = rng.choice([8, 10, 11, 13])
+        bend = rng.choice([0.0, 0.3, -0.2])
         t = np.linspace(0, 1, nimg)
-        start = np.array([-0.9, 0.1])
-        end = np.array([0.95, -0.1])
-        coord = start + np.outer(t, end - start)
+        coord = np.outer(1 - t, [-0.8, 0.25]) + np.outer(t, [1.15, -0.2])
         coord[:, 1] += bend * np.sin(np.pi * t)
-        for integ in ('default', 'rk', 'euler'):
+        variants = [('default', dict(relaxsteps=20000, climbsteps=20000)),     # relaxation converges by tolerance, then climbs
+                    ('rk', dict(relaxsteps=150, climbsteps=20000)),            # short relaxation, then climbing
+                    ('euler', dict(relaxsteps=20000, climbsteps=20000))]
+        for integ, kw in variants[: (3 if it < 2 or ctx.thorough else 1)]:
+            info = {'op': 'relax', 'k': k, 'c': c, 'a': a, 'images': nimg, 'bend': bend, 'options': integ, **kw}
             try:
                 if integ == 'default':
                     path = mep.create_path(coord, energy)
                 else:
-                    path = mep.create_path(coord, energy, gradientfxn=(lambda fxn, p, grad=grad: grad(p)), gradientkwargs={}, integratorfxn=integ)
+                    path = mep.create_path(coord, energy, gradientfxn=(lambda fxn, p, grad=grad: grad(p)),
+                                           gradientkwargs={}, integratorfxn=integ)
             except Exception as e:  # noqa
-                ctx.violate('create_path:' + integ, f'create_path with {integ} options raised {type(e).__name__}: {e}',
-                            {'op': 'relax', 'k': k, 'c': c, 'options': integ})
+                ctx.violate('create_path:' + integ, f'create_path with {integ} options raised {type(e).__name__}: {e}', info)
                 continue
             try:
-                new = path.relax(relaxsteps=3000, climbsteps=3000, timestep=0.01, tolerance=1e-7, verbose=False)
+                new = path.relax(verbose=False, **kw)
             except Exception as e:  # noqa
-                ctx.violate('relax:raises', f'relax raised {type(e).__name__}: {e}', {'op': 'relax', 'k': k, 'c': c})
+                ctx.violate('relax:raises', f'relax raised {type(e).__name__}: {e}', info)
                 continue
             E = new.energy()
             top = int(np.argmax(E))
+            g = float(np.abs(grad(new.coord[top])).max())
             ends_ok = np.allclose(new.coord[0], [-1, 0], atol=2e-3) and np.allclose(new.coord[-1], [1, 0], atol=2e-3)
-            saddle_ok = np.allclose(new.coord[top], [0, c], atol=2e-3) and abs(E[top] - 1.0) < 1e-4 \
-                and np.abs(grad(new.coord[top])).max() < 1e-3
-            ctx.stats.case('oracle:relax', (k, c, nimg, bend, integ),
-                           sample={'op': 'relax', 'k': k, 'c': c, 'images': nimg, 'bend': bend, 'integrator': integ,
-                                   'saddle_found': new.coord[top].tolist(), 'barrier': float(E[top])})
+            saddle_ok = np.allclose(new.coord[top], saddle, atol=2e-3) and abs(E[top] - barrier) < 1e-5 and g < 2e-3
+            ctx.stats.case('oracle:relax', (k, c, a, nimg, bend, integ),
+                           sample={**info, 'saddle_found': new.coord[top].tolist(), 'saddle': saddle.tolist(),
+                                   'barrier_found': float(E[top]), 'barrier': barrier})
             if not (ends_ok and saddle_ok):
-                ctx.violate('relax:saddle', f'relaxed string misses minima/saddle: ends {new.coord[0]}, {new.coord[-1]}, '
-                            f'top image {new.coord[top]} E={E[top]} (saddle (0,{c}), barrier 1)',
-                            {'op': 'relax', 'k': k, 'c': c, 'images': nimg, 'bend': bend, 'integrator': integ})
+                ctx.violate('relax:saddle', f'relaxed string misses minima/saddle ({integ}, k={k}, c={c}, a={a}, N={nimg}, '
+                            f'bend={bend}): ends {new.coord[0]}, {new.coord[-1]}; top image {new.coord[top]} E={E[top]:.8f} '
+                            f'|grad|={g:.2e} (saddle {saddle}, barrier {barrier:.8f})', info)
 
 
 def replay(ctx, payload):
